@@ -269,11 +269,18 @@ func (fd *FieldData) Int32Values() ([]int32, error) {
 // [Protobuf base128 varint encoding]: https://developers.google.com/protocol-buffers/docs/encoding#varints
 func (fd *FieldData) SInt32Value() (int32, error) {
 	return scalarValue(fd, csproto.WireTypeVarint, func(data []byte) (int32, error) {
-		value, _, err := csproto.DecodeZigZag32(data)
+		value, n, err := csproto.DecodeVarint(data)
 		if err != nil {
 			return 0, err
 		}
-		return value, nil
+		if n == 0 {
+			return 0, csproto.ErrInvalidVarintData
+		}
+		// ensure the encoded value fits in 32 bits, like Int32Value and UInt32Value do
+		if value > math.MaxUint32 {
+			return 0, csproto.ErrValueOverflow
+		}
+		return int32((uint32(value) >> 1) ^ uint32((int32(value&1)<<31)>>31)), nil
 	})
 }
 
@@ -291,11 +298,18 @@ func (fd *FieldData) SInt32Values() ([]int32, error) {
 		return nil, ErrTagNotFound
 	}
 	s, err := sliceValue(fd, csproto.WireTypeVarint, fd.int32Slice, func(data []byte) (int32, int, error) {
-		value, n, err := csproto.DecodeZigZag32(data)
+		value, n, err := csproto.DecodeVarint(data)
 		if err != nil {
 			return 0, 0, err
 		}
-		return value, n, nil
+		if n == 0 {
+			return 0, 0, csproto.ErrInvalidVarintData
+		}
+		// ensure the encoded value fits in 32 bits, like Int32Values and UInt32Values do
+		if value > math.MaxUint32 {
+			return 0, 0, csproto.ErrValueOverflow
+		}
+		return int32((uint32(value) >> 1) ^ uint32((int32(value&1)<<31)>>31)), n, nil
 	})
 	if fd.unsafe {
 		fd.maxCap = max(fd.maxCap, cap(s))
